@@ -583,7 +583,8 @@ def jobs(tier):
                 cfg['sens_pre'] = (j // 2) % 2 == 0
             if spec[0] == 'mech' and p and j % 3 == 0:
                 cfg['via_copy'] = True
-            out.append(('step', 'case_step', cfg, {'diffcheck': j % 5 == 0}))
+            out.append(('step', 'case_step', cfg, {
+                'diffcheck': j % 5 == 0, 'terms_labels': r': sample\['}))
     return out
 
 
